@@ -94,7 +94,7 @@ theorem adapter_rows_eq_block [CommRing K] [DecidableEq K] (b : Nat) (hb : 0 < b
     (hs : A.sortedb = true) (hr : A.nrows % b = 0) (hc : A.ncols % b = 0) :
     ∃ B, blockMatrix b A = .ok B ∧ B.nrows = A.nrows / b ∧ B.ncols = A.ncols / b ∧
       (∀ i j, (unblock b B).get i j = A.get i j) ∧
-      ∀ (α β : K) (x y : Vec K), x.size = A.ncols → blockSpmv b α B x β y = spmv α A x β y :=
+      ∀ (α β : K) (x y : Vec K), blockSpmv b α B x β y = spmv α A x β y :=
   C13.block_adapter_operator b hb A hA hs hr hc
 
 /-- **reordered matrix**: same shape, row `i` is row `perm i` (same length), entries `B[i][j] = A[perm i][perm j]` -/
@@ -236,12 +236,14 @@ end order
 
 -- non-vacuity --------------------------------------------------------------------------------------------------
 -- a matrix with unsorted rows, a duplicate column and an empty row through the tuple adapter with base offset 2
-example : crsTuple 3 (tuplePtr (⟨3, #[[(2, (5 : Int)), (0, 1), (2, -1)], [], [(1, 7)]]⟩ : CRS Int) 2)
+example : (crsTuple 3 (tuplePtr (⟨3, #[[(2, (5 : Int)), (0, 1), (2, -1)], [], [(1, 7)]]⟩ : CRS Int) 2)
     (tupleCol ⟨3, #[[(2, (5 : Int)), (0, 1), (2, -1)], [], [(1, 7)]]⟩ [9, 9])
-    (tupleVal ⟨3, #[[(2, (5 : Int)), (0, 1), (2, -1)], [], [(1, 7)]]⟩ [0, 0])
-    = ⟨3, #[[(2, 5), (0, 1), (2, -1)], [], [(1, 7)]]⟩ := by decide +kernel
+    (tupleVal ⟨3, #[[(2, (5 : Int)), (0, 1), (2, -1)], [], [(1, 7)]]⟩ [0, 0])).rows
+    = #[[(2, 5), (0, 1), (2, -1)], [], [(1, 7)]] ∧
+    tuplePtr (⟨3, #[[(2, (5 : Int)), (0, 1), (2, -1)], [], [(1, 7)]]⟩ : CRS Int) 2 = #[2, 5, 5, 6] := by
+  decide +kernel
 -- a genuine permutation and a solve through it
-example : IsPerm #[2, 0, 1] := by decide
+example : IsPerm #[2, 0, 1] := by unfold IsPerm; decide
 example : mkIperm #[2, 0, 1] = #[1, 2, 0] ∧
     (reorderedMatrix (⟨3, #[[(0, (2 : Int)), (1, 1)], [(1, 3)], [(0, 1), (2, 4)]]⟩ : CRS Int) #[2, 0, 1]
       (mkIperm #[2, 0, 1])).rows = #[[(1, 1), (0, 4)], [(1, 2), (2, 1)], [(2, 3)]] := by decide +kernel
